@@ -349,7 +349,7 @@ type vtok struct {
 }
 
 var exprVocab = []vtok{
-	{"1", "CONST", 1}, {"2.5", "CONST", float32(2.5)}, {"'x'", "CONST", "x"}, {"TRUE", "CONST", true}, {"FALSE", "CONST", false},
+	{"1", "CONST", 1}, {"2.5", "CONST", float32(2.5)}, {"'x'", "CONST", "x"}, {"'1'", "CONST", "1"}, {"TRUE", "CONST", true}, {"FALSE", "CONST", false},
 	{"a", "IDENT", nil}, {"\"q\"", "IDENT", nil}, {"\"and\"", "IDENT", nil}, {"\"NULL\"", "IDENT", nil}, {"\"(\"", "IDENT", nil},
 	{"(", "(", nil}, {")", ")", nil}, {"[", "[", nil}, {"]", "]", nil}, {",", ",", nil},
 	{"+", "+", nil}, {"-", "-", nil}, {"*", "MUL", nil}, {"/", "MUL", nil}, {"%", "MUL", nil}, {"^", "POW", nil},
